@@ -82,6 +82,11 @@ func main() {
 		os.Exit(2)
 	}
 	mode, arg := os.Args[1], os.Args[2]
+	// everything this process spawns uses the pinned offline toolchain
+	os.Setenv("PATH", goBinDir+":"+os.Getenv("PATH"))
+	for k, v := range map[string]string{"GOFLAGS": "-mod=mod", "GOPROXY": "off", "GOSUMDB": "off", "GOTOOLCHAIN": "local", "GOWORK": "off"} {
+		os.Setenv(k, v)
+	}
 	fs := flag.NewFlagSet("driver", flag.ExitOnError)
 	tier := fs.String("tier", envOr("VERIF_TIER", "quick"), "quick|thorough")
 	seedS := fs.String("seed", envOr("VERIF_SEED", "1"), "batch seed")
@@ -156,6 +161,18 @@ func main() {
 		code = runCheck(cfg, spec)
 	case "replay":
 		code = runReplay(cfg, arg)
+	case "sites":
+		r, err := rewriteDeterminismSeams(cfg.repo)
+		if err != nil {
+			die2("%v", err)
+		}
+		for _, st := range r.sites {
+			fmt.Printf("%-34s %-12s %s\n", st.ID, st.Kind, st.Key)
+		}
+		for _, u := range r.unowned {
+			fmt.Println("UNOWNED", u)
+		}
+		code = 0
 	case "selftest":
 		spec := engines[arg]
 		if spec == nil {
